@@ -6,6 +6,7 @@ import pickle
 import networkx as nx
 import itertools
 import pandas as pd
+from mbi import _verif_trace as _vt
 
 class GraphicalModel:
     def __init__(self, domain, cliques, total = 1.0, elimination_order=None):
@@ -164,8 +165,14 @@ class GraphicalModel:
                 tau = beliefs[i]
             messages[(i,j)] = tau.logsumexp(sep)
             beliefs[j] += messages[(i,j)]
+            if _vt.ON and _vt.sink is not None:
+                _vt.emit('bp.send', i=i, j=j, msg_attrs=messages[(i,j)].domain.attrs,
+                         msg=np.array(messages[(i,j)].values), belief_attrs=beliefs[j].domain.attrs,
+                         belief=np.array(beliefs[j].values))
 
         cl = self.cliques[0]      
+        if _vt.ON and _vt.sink is not None and logZ:
+            _vt.emit('bp.done', logZ=True, pot_id=id(potentials), out_id=None)
         if logZ: return beliefs[cl].logsumexp()
  
         logZ = beliefs[cl].logsumexp()
@@ -173,6 +180,10 @@ class GraphicalModel:
             beliefs[cl] += np.log(self.total) - logZ
             beliefs[cl] = beliefs[cl].exp(out=beliefs[cl])    
 
+        if _vt.ON and _vt.sink is not None:
+            beliefs = CliqueVector(beliefs)
+            _vt.emit('bp.done', logZ=False, pot_id=id(potentials), out_id=id(beliefs))
+            return beliefs
         return CliqueVector(beliefs)
 
     def mle(self, marginals):
